@@ -444,7 +444,10 @@ def rule_seconds(cx, chk):
                 raise AnalysisError('%s:%d TimexValue.duration_value: return value not of the form k * %s.<unit>: %s'
                                     % (c.mod.rel, n.lineno, base, ast.unparse(n.value)))
             if cp[1] in table:
-                raise AnalysisError('%s:%d duration_value returns unit %s twice' % (c.mod.rel, n.lineno, cp[1]))
+                chk.bad('C15.seconds', c.mod.path, 'TimexValue.duration_value[%s]' % cp[1], 'converted twice',
+                        'two branches of duration_value multiply %s.%s: one of them answers for another unit'
+                        % (base, cp[1]), n.lineno)
+                continue
             table[cp[1]] = (cp[0], n.lineno)
     if not table:
         raise AnalysisError('TimexValue.duration_value: no multiplier table found')
@@ -667,6 +670,8 @@ def rule_attr(cx, chk):
                               'constructor keyword', 'Timex.__init__ has no parameter %r (TypeError at run time)' % kw.arg,
                               n.lineno)
             if not isinstance(n, ast.Attribute) or not isinstance(n.value, ast.Name):
+                continue
+            if n.attr.startswith('__') and n.attr.endswith('__'):
                 continue
             base = n.value.id
             k = None
